@@ -120,6 +120,9 @@ def run_unit(args):
                         cf["mismatches"].append({"values": contract.jsonable(values), "what": r})
             # the same grid is the bounded stand-in for undecided obligations of this case
             if undecided:
+                excluded_regions = {r_ for rs in exclude.values() if isinstance(rs, list) for r_ in rs}
+                if excluded_regions & set(case.concrete_regions(values)):
+                    continue
                 bad, what = replay.replay(case, values)
                 if bad is None:
                     continue
